@@ -40,9 +40,25 @@ def prove_path(entry, path, opts):
     for kind, ids in path.hyps: roots += ids
     roots = [r for r in roots if r is not None]
     sign_override = {}
+    droots = []
+    for (a, c, b, t) in path.decisions: droots += [a, b]
+    for (a, c, b) in path.assumes: droots += [a, b]
+    import signal
+    def _alarm(*a): raise cfm.CFError('canonical-form time cap (%ds) exceeded' % opts.get('cf_cap', 120))
     for attempt in range(4):
         try:
-            C = cfm.Canon(nodes, roots, path.hyps, sign_override=sign_override).run(roots)
+            signal.signal(signal.SIGALRM, _alarm); signal.alarm(opts.get('cf_cap', 120))
+            try:
+                C = cfm.Canon(nodes, roots, path.hyps, sign_override=sign_override)
+                # stage 1: decisions only -- a path refuted by constant decisions needs no claim forms
+                C.run(droots)
+                early = any(const_truth(C, a, c, b) is not None and const_truth(C, a, c, b) != t for (a, c, b, t) in path.decisions)
+                if early:
+                    C.cone = sorted(dagm.cone(nodes, droots))
+                else:
+                    C.run(roots)
+            finally:
+                signal.alarm(0)
         except cfm.CFError as e:
             res['cf_error'] = str(e); res['feasible'] = None
             # A path on which the canonical engine meets a vanishing denominator: decide feasibility is left to caller
@@ -85,7 +101,7 @@ def prove_path(entry, path, opts):
     # step lemmas for everything (needed for PC soundness as well)
     steps = C.steps()
     lem = [('L%d' % i, [s]) for i, s in steps]
-    rl = smt.run_checks(pre, lem, per_check_ms=opts.get('lemma_ms', 20000), jobs=opts.get('jobs', 4))
+    rl = smt.run_checks(pre, lem, per_check_ms=opts.get('lemma_ms', 20000), jobs=opts.get('lemma_jobs', 4))
     res['lemmas'] = len(lem); res['lemmas_ok'] = sum(1 for v in rl.values() if v[0] == 'unsat')
     res['lemma_fail'] = [k for k, v in rl.items() if v[0] != 'unsat'][:20]
     if res['feasible'] is False:
